@@ -138,6 +138,8 @@ pub struct DrawRec {
     pub math: (usize, usize),
     /// adaptation schedule counters after this call (hook H4), if the strategy has any
     pub counters: Option<nuts_rs::verif::AdaptCounters>,
+    /// trajectory tap (hook H3) of this call: start states and every leapfrog result, in order
+    pub tap: Vec<nuts_rs::verif::TapState>,
 }
 
 impl DrawRec {
@@ -212,6 +214,8 @@ pub struct History {
     pub draws: Vec<DrawRec>,
     /// result of the last draw call if it did not return Ok (the run stops there)
     pub failed_call: Option<(u64, CallResult, (u64, u64))>,
+    /// trajectory tap of the failed call
+    pub failed_tap: Vec<nuts_rs::verif::TapState>,
     pub evals: Vec<EvalRecord>,
     pub n_evals: u64,
     pub faults_fired: Vec<(u64, FaultKind)>,
@@ -366,6 +370,7 @@ fn run_inner<S: Settings, M: Math>(settings: S, math: M, cfg: &ChainCfg, log: cr
         set_position_evals: (0, 0),
         draws: vec![],
         failed_call: None,
+        failed_tap: vec![],
         evals: vec![],
         n_evals: 0,
         faults_fired: vec![],
@@ -435,7 +440,12 @@ fn run_inner<S: Settings, M: Math>(settings: S, math: M, cfg: &ChainCfg, log: cr
         }
         let n0 = log.lock().unwrap().n_evals;
         let m0 = ev_len();
+        if cfg.observe_math {
+            nuts_rs::verif::tap_enable();
+        }
         let r = catch_unwind(AssertUnwindSafe(|| chain.expanded_draw()));
+        let tap = if cfg.observe_math { nuts_rs::verif::tap_take() } else { vec![] };
+        nuts_rs::verif::tap_disable();
         let n1 = log.lock().unwrap().n_evals;
         let m1 = ev_len();
         match r {
@@ -462,13 +472,16 @@ fn run_inner<S: Settings, M: Math>(settings: S, math: M, cfg: &ChainCfg, log: cr
                     evals: (n0, n1),
                     math: (m0, m1),
                     counters: chain.verif_adapt_counters(),
+                    tap,
                 });
             }
             Ok(Err(e)) => {
                 hist.failed_call = Some((i, CallResult::Err(format!("{e:#}")), (n0, n1)));
+                hist.failed_tap = tap;
                 break;
             }
             Err(p) => {
+                hist.failed_tap = tap;
                 hist.failed_call = Some((i, CallResult::Panic(panic_message(p)), (n0, n1)));
                 std::mem::forget(chain);
                 finish(&mut hist, &log);
